@@ -62,5 +62,8 @@ XEvent(r) ==
     \/ /\ r.ev = "constrt" /\ ConstRtOK(r) /\ UNCHANGED <<gaVars, xVars>>
     \/ /\ r.ev = "big" /\ BigOK(r) /\ UNCHANGED <<gaVars, xVars>>
     \/ /\ r.ev = "bigfold" /\ BigFoldOK(r) /\ UNCHANGED <<gaVars, xVars>>
+    \/ /\ r.ev = "bigseq" /\ BigSeqOK(r) /\ UNCHANGED <<gaVars, xVars>>
+    \/ /\ r.ev = "bigserde" /\ BigSerdeOK(r) /\ UNCHANGED <<gaVars, xVars>>
+    \/ /\ r.ev = "zsthuge" /\ ZstHugeOK(r) /\ UNCHANGED <<gaVars, xVars>>
     \/ /\ r.ev = "big_done" /\ r.ok /\ UNCHANGED <<gaVars, xVars>>
 =============================================================================
